@@ -172,7 +172,8 @@ class Oracle:
         stats = child.stats
         stats.probes['ss_annotate_dssp'] += 1
         calls = peer.calls[ncalls0:]
-        any_fault = [c for c in calls if c.get('fault')]
+        # break lines and an unsupported-but-readable version are legal peer behaviour, not failures
+        any_fault = [c for c in calls if c.get('fault') and c['fault'][0] not in ('breaks',)]
         must_fail = [c for c in calls if c.get('fault') and c.get('delivered') is None]
         if peer.fault and peer.fault[0] in ('missing',):
             must_fail = [True]
